@@ -234,7 +234,10 @@ func newGen(t *rapid.T, names []string) *gen {
 		g.isCtr[string(k)] = true
 	}
 	if g.pointOnly {
-		g.short = [][]byte{{}, {0}, {'a'}, {'a', 'b'}, {0xff, 0xff}, {0xff}}
+		// 1-2 byte keys. The empty key is not in the domain: no caller can produce it (every encoded key starts
+		// with a type byte and a 2-byte table length) and pebble does not survive it (after Put("") a close+reopen
+		// fails with "keys must be added in order", CompactAllRange never returns).
+		g.short = [][]byte{{0}, {'a'}, {'a', 'b'}, {0xff, 0xff}, {0xff}, {0, 0}}
 		g.labels["point_only_short_keys"] = true
 	} else {
 		if lo, ok := add3(g.prefix, -1); ok && rapid.Bool().Draw(t, "lownoise") {
@@ -802,6 +805,8 @@ func skipOn(e *eng, st *step) bool {
 	return false
 }
 
+var debugSteps = os.Getenv("C20_DEBUG") != ""
+
 type runner struct {
 	t         *rapid.T
 	g         *gen
@@ -903,6 +908,9 @@ func (r *runner) exec(e *eng, st *step, want []string) []string {
 
 func (r *runner) run(st *step, trace *[]string) {
 	*trace = append(*trace, st.String())
+	if debugSteps {
+		fmt.Fprintf(os.Stderr, "STEP %d: %s\n", len(*trace), clip(st.String()))
+	}
 	if st.want == nil {
 		st.want = r.g.expect(st)
 	}
@@ -995,7 +1003,10 @@ func TestEngineHistories(t *testing.T) {
 				st = g.genRange("r", true)
 			case c < 90 && !g.pointOnly:
 				st = g.genRaw("w")
-			case c < 93:
+			case c < 93 && !g.pointOnly:
+				// not with keys shorter than 3 bytes: pebble's Compact(nil, nil) (what CompactAllRange calls) is an
+				// empty range unless the empty key is stored, and then never returns in this pebble version; no
+				// production key is shorter than 3 bytes
 				st = &step{kind: skCompact}
 			case c < 96:
 				st = &step{kind: skReopen}
